@@ -226,6 +226,7 @@ func runSer2(c *core.Ctx) {
 		Domain:    an.Range(0, 255),
 	}
 	var ctlBlock, verbBlock *ssa.BasicBlock
+	var ctlCall, tableCall *ssa.Call
 	ctlOK := false
 	an.Instrs(esc, func(in ssa.Instruction) {
 		call, ok := in.(*ssa.Call)
@@ -235,6 +236,12 @@ func runSer2(c *core.Ctx) {
 		b, ok := call.Call.Value.(*ssa.Builtin)
 		if !ok || b.Name() != "append" || len(call.Call.Args) != 2 {
 			return
+		}
+		// the table entry of the byte, appended as it is
+		if u, isU := call.Call.Args[1].(*ssa.UnOp); isU && u.Op == token.MUL {
+			if ia, isIA := u.X.(*ssa.IndexAddr); isIA && ia.X == ssa.Value(table) && ia.Index == subj {
+				tableCall = call
+			}
 		}
 		elems, ok := an.VariadicElems(call.Call.Args[1])
 		if !ok {
@@ -251,6 +258,7 @@ func runSer2(c *core.Ctx) {
 			}
 			if fmt.Sprint(ks) == "[92 117 48 48]" {
 				ctlBlock = call.Block()
+				ctlCall = call
 				hi, lo := an.PathOf(elems[4]), an.PathOf(elems[5])
 				sp := an.PathOf(subj)
 				ctlOK = hi == `const:"0123456789abcdef"[*]` && lo == hi &&
@@ -259,6 +267,51 @@ func runSer2(c *core.Ctx) {
 			}
 		}
 	})
+	if ctlBlock != nil && verbBlock == nil {
+		// no per-byte verbatim append: runs of verbatim bytes copied in one go?
+		rc := runCopyIdiom(esc, subj, tableCall, ctlCall)
+		if !rc.ok {
+			c.Unknown(nil, fname(c, esc), "control-range", P.Pos(esc.Pos()), "no per-byte verbatim branch, and not a verified run-copying escaper: "+rc.why)
+			return
+		}
+		cs, n1, ok1 := fr.ReachSet(esc, ctlBlock, nil, nil)
+		vs, n2, ok2 := fr.ReachEdge(esc, rc.skip, nil, nil)
+		c.CountPaths(n1 + n2)
+		// the skip edge is taken only for bytes without a table entry
+		noEntry := false
+		if ps, okp := an.PathsTo(esc, rc.skip.From, 4096); okp {
+			noEntry = len(ps) > 0
+			for _, p := range ps {
+				q := append(append(an.Path(nil), p...), rc.skip.To)
+				if !an.Feasible(q) {
+					continue
+				}
+				has := false
+				for _, cd := range q.Conds() {
+					cd = an.NormCond(cd)
+					if b, isB := cd.V.(*ssa.BinOp); isB && b.Op == token.EQL && cd.True {
+						if k, isK := an.ConstStr(b.Y); isK && k == "" {
+							if u, isU := b.X.(*ssa.UnOp); isU {
+								if ia, isIA := u.X.(*ssa.IndexAddr); isIA && ia.X == ssa.Value(table) && ia.Index == subj {
+									has = true
+								}
+							}
+						}
+					}
+				}
+				if !has {
+					noEntry = false
+				}
+			}
+		}
+		c.Check(ok1 && ctlOK && cs.Equal(an.Range(0, 31)), nil, fname(c, esc), "control-range", P.Pos(ctlBlock.Instrs[0].Pos()),
+			"bytes not in the table and ∈ "+cs.String()+" are written as \\u00 + two lower-case hex digits (high nibble, low nibble)",
+			fmt.Sprintf("the \\u00xx branch runs for bytes ∈ %s (want [0,31]) with digits ok=%v", cs, ctlOK))
+		c.Check(ok2 && noEntry && vs.Equal(an.Range(32, 255)), nil, fname(c, esc), "verbatim-range", P.Pos(rc.skip.From.Instrs[0].Pos()),
+			"run-copying escaper (start/flush/tail bookkeeping verified): a byte is left in the pending run iff it has no table entry and ∈ "+vs.String()+"; runs are copied verbatim",
+			fmt.Sprintf("run-copying escaper: a byte stays in the verbatim run when ∈ %s (no table entry on that edge: %v), want [32,255]", vs, noEntry))
+		return
+	}
 	if ctlBlock == nil || verbBlock == nil {
 		c.Unknown(nil, fname(c, esc), "control-range", P.Pos(esc.Pos()), "the \\u00xx branch or the verbatim branch of the escaper was not recognised")
 		return
